@@ -5,6 +5,7 @@ import (
 	"verif/dial"
 	"verif/eng"
 	"verif/meta"
+	"verif/multi"
 	"verif/wire"
 )
 
@@ -26,6 +27,7 @@ var runners = map[string]eng.Runner{
 	"C16": wire.C16,
 	"C17": wire.C17,
 	"C18": wire.C18,
+	"C19": multi.C19,
 	"C20": dial.C20,
 }
 
